@@ -666,7 +666,9 @@ def shrink_mc(c):
                 yield dict(c, **{k: dict(a, strm=xs[:c["n"]], ts=a["ts"][:c["n"]])})
             if a.get("kind") != "list":
                 yield dict(c, **{k: dict(a, kind="list")})
-            if xs and len(set(xs)) == 1 and len(xs) >= c["n"]:
+            referred = (k in (c.get("alias") or []) or (c.get("raises") or {}).get("arg") == k
+                        or (c.get("late") or {}).get("arg") == k)      # the case names this argument as a stream
+            if xs and len(set(xs)) == 1 and len(xs) >= c["n"] and not referred:
                 yield dict(c, **{k: {"num": xs[0], "t": a["ts"][0]}})
             for i, x in enumerate(xs):
                 q = dec(x)
